@@ -9,6 +9,10 @@ props = [json.loads(l) for l in open(os.path.join(HERE, 'properties.jsonl'))]
 TB = 'z3 5.1 verdicts; CPython semantics for un-instrumented code; hv.instrument AST pass (validated by running the repo test-suite on the instrumented modules at setup); oracle files under /verif/oracle; bounds as listed in the evidence file'
 
 CHECKS = {
+ 'C10': dict(
+    technique='path-exhaustive symbolic execution of every shipped line definition (real Field.value on symbolic inputs/lines, z3 decides feasibility) + SMT lifting of each crashing path through a whole-return model to concrete inputs, replayed on the real Solver',
+    text='Every line of every form of 2021-2023 (copy forms up to K instances) is run symbolically to path exhaustion; a feasible path ending in an unknown input/line/form (not deliberately absent) or Attribute/Name/Key/Assertion error is a candidate. z3 then decides whether any input assignment makes the real solver reach it (whole-return model: unsat = unreachable within the bound); sat witnesses are replayed on the uninstrumented Solver and only reproduced crashes are reported. Bounded: K copies per input form, S in total, amounts <= 1e8, whole cents.',
+    design='4 C10', note=TB + '; oracle/absent_forms.json lists the deliberately absent forms; whole-return model validated differentially against the real Solver'),
  'C07': dict(
     technique='bounded symbolic execution of the real figure_tax on a symbolic real income (proxy objects through the real bytecode, z3 decides path feasibility) + per-path SMT equivalence with the statutory rate schedule',
     text='Every path of the real figure_tax/figure_tax_table/figure_tax_worksheet (one per table row and worksheet row, for each year and each of the 5 statuses) is enumerated by the symbolic executor; for each, z3 proves value(x) == schedule(x) for every real x on that path (unsat of the negation), that no feasible x falls through, and monotonicity across adjacent pieces. Holds for all real x in [0,1e12]; float rounding of the worksheet kernel is bounded by an NRA lemma under the IEEE standard model. Witnesses are replayed on the uninstrumented code before being reported.',
